@@ -95,7 +95,7 @@ let internal_event (e : sstate event) : string option =
   | ESubRecv (s, a) -> Some (Printf.sprintf "subrecv %d %d" (int_of_n s) (int_of_n a))
   | EReduced a -> Some (Printf.sprintf "reduced %d" (int_of_n a))
   | EWrite (a, _) -> Some (Printf.sprintf "write %d" (int_of_n a))
-  | ESnapshot (a, l) -> Some (Printf.sprintf "snapshot %d [%s]" (int_of_n a) (string_of_ids l))
+  | ESnapshot (a, _, l) -> Some (Printf.sprintf "snapshot %d [%s]" (int_of_n a) (string_of_ids (List.map (fun x -> x.se_id) l)))
   | ESpawn (k, t) -> Some (Printf.sprintf "spawn %d as %d" (int_of_n k) (int_of_n t))
   | ESpawnSkipped k -> Some (Printf.sprintf "spawn-skipped %d" (int_of_n k))
   | ETakePool -> Some "take-pool"
